@@ -124,6 +124,16 @@ CLAIMED = {
             "cursor-only, desktop-size-only and last-rect updates",
             "RGB awaited images; kernel float primitives listed by Print Assumptions (not axioms); open finding c07-empty-update",
             "Coq proof (induction over update sequences, histogram algebra) + PrimFloat model evaluated by vm_compute + differential correspondence"),
+    "C08": ("Coq interpreter of the compiled script as a callback chain over rational time (synchronous operations, pause, drag with "
+            "its 0.2 s steps, capture completing at the next commit, expect polling until a matching commit) and theorems for every "
+            "script, client state and time-ordered commit schedule: each operation's bytes lie in time order between its start and "
+            "its completion and the chain resumes at the completion (hence no byte of a later command before the earlier one "
+            "finished), a pause lasts exactly the requested time, the connection is closed exactly once and last iff every command "
+            "finished; real build_command_list + VNCDoCLIClient run through the real handshake under task.Clock with a scheduled "
+            "server; judged by an independent reference schedule (exact times) and compared with the interpreter's timed trace",
+            "Twisted Deferred/inlineCallbacks/callLater semantics modelled (not verified); ties between timers and commits excluded; "
+            "a script file adds one delay pause at its start (at least the delay still elapses)",
+            "Coq proof (induction over the script, sortedness invariants over Q) + differential correspondence of timed traces"),
 }
 NOT_YET = "check not built yet in this session (planned Coq model in DESIGN.md §3); not claimed"
 
